@@ -1374,13 +1374,18 @@ pub fn generate(ctx: &mut Ctx) {
     }
     // has_relationship over ONE record set whose Refs point at each other: one (relationship, term, target) asked of every
     // record, in every rotation of the order - what one walk learns about a ref must not decide another walk
-    for i in 0..ctx.n(6, 40) {
+    for i in 0..ctx.n(14, 60) {
         let mut g = c13::gen_graph(&mut rng, 12);
         let mut rows = g.rows.clone();
         c13::add_assoc_rows(&mut rng, &mut rows);
         g.rows = rows;
         let (recs, fam) = c13::gen_rel(&mut rng, &g.rows, false);
-        let triples: Vec<&c13::RelQuery> = fam.iter().rev().step_by(6).take(2).collect();
+        let _ = fam;
+        // `containedBy? @target` without a term (every declared tag takes part in the walk), for two targets
+        let triples: Vec<c13::RelQuery> = ["r1", "r4"]
+            .iter()
+            .map(|g| c13::RelQuery { subject: 0, rel: "containedBy".into(), term: None, target: Some(g.to_string()) })
+            .collect();
         for (ti, t) in triples.iter().enumerate() {
             for rot in 0..recs.len() {
                 let qs: Vec<Q> = (0..recs.len()).map(|k| Q::RelX(recs.clone(), t.rel.clone(), t.term.clone(), t.target.clone(), (k + rot) % recs.len())).collect();
